@@ -354,9 +354,24 @@ func runCodec(s *Session) string {
 		if r.req != nil && t.Chance(1, 2) {
 			mk = r.req
 		}
+		if t.Chance(1, 10) {
+			// the error object a response may carry instead: its members travel as set
+			mk = func() pobj { return new(rhp2.RPCError) }
+			if v == 3 {
+				mk = func() pobj { return new(rhp3.RPCError) }
+			}
+		}
 		o := mk()
 		fillObject(t, o, 0, 1)
 		fixup(o)
+		if t.Chance(1, 2) {
+			switch re := o.(type) {
+			case *rhp2.RPCError:
+				re.Type = types.Specifier{}
+			case *rhp3.RPCError:
+				re.Type = types.Specifier{}
+			}
+		}
 		c = codec{fmt.Sprintf("rhp/v%d %T", v, o), encP(o), func() any { return mk() }, decP, func(o any) []byte { fixup(o); return encP(o.(pobj)) }, o}
 	case 4:
 		r := rpcs4[t.Choose(len(rpcs4))]
